@@ -12,3 +12,4 @@ OBLIGATIONS.append(dict(id='C05.orderby.parse', engine='V', verus_fn='Parser::pa
 CANARIES = [dict(harness='verif_frag::criteria::canary_criteria_must_fail', units=['criteria']), dict(harness='field::verif_kani::canary_field_must_fail', units=['fieldclass'])]
 ASSUMPTIONS = ['per-key comparisons (parse_filesize / parse_datetime / T::cmp) are total orders; they enter the fragments as symbolic Ordering values', 'cmp(b, a) == cmp(a, b).reverse() for the per-key comparison (used only if the source swaps the operands)']
 NOT_COVERED = ['that the buffered rows come out in Criteria order and form a permutation (TopN / BTreeMap: beyond CBMC and Verus here)', 'numeric / date key comparison itself', 'Expr::contains_numeric / contains_datetime on expression keys', 'check_file building the criteria vector']
+HARNESS_TIMEOUT = 300
